@@ -35,8 +35,16 @@ ASSUMPTIONS = [
     "allow_missing_positional, low-index multiples, args_conflicts_with_subcommands (the conventional class)",
     "=/space and attached/space rewrites only for options taking at most one value, without require_equals, "
     "value not starting with '-'",
-    "step-level theorems are about parse_opt_value/short_loop/lookup functions for all states; the whole-line "
-    "equality is checked differentially",
+    "step-level theorems are about parse_opt_value/short_loop/lookup functions for all states; whole-line theorems "
+    "(ParseProofs/SpellingLine.v) are for one rewritten occurrence at an arbitrary loop/parser state of a named class "
+    "with an ARBITRARY rest of the line, lifted to parse_top for an occurrence at the head of the line (and behind a "
+    "prefix of separate flag tokens for `--opt v`/`--opt=v`); classes: subcommand_precedence_over_arg off, ignore_errors "
+    "off (parse_top level), single-valued option without require_equals whose id is not a positional's, value token not "
+    "`--`/long/short-looking and not the terminator, the occurrence itself accepted (`--opt=<bad> --zzz` and "
+    "`--opt <bad> --zzz` report different errors: C08_spelling_needs_success_witness, confirmed on the implementation), "
+    "short spellings/clusters at ParseState::ValuesDone with no hyphen/negative-number positional at the counter, flag_subcmd_skip = 0, "
+    "and (clusters, short aliases) no short flag-subcommands; compositions of rewrites, occurrences behind arbitrary "
+    "prefixes, inside subcommands, subcommand alias/prefix at the loop level and `--` insertion remain differential",
 ]
 
 EXTRA_LONGS = ["alpine", "betamax", "optional", "outer", "colour", "gam", "gamut", "abacus", "oo", "colt"]
@@ -656,15 +664,28 @@ def classify_known(stream, case, impl, failure):
     return None
 
 
-TECHNIQUE = ("Coq proof (key-map and prefix-inference lemmas, step-level spelling equalities on the parser state) + "
+TECHNIQUE = ("Coq proof (key-map and prefix-inference lemmas, step-level spelling equalities on the parser state, a "
+             "bisimulation of the token loop over the pending-value buffer giving whole-line spelling equalities for an "
+             "arbitrary rest of the line, lifted through get_matches_with/do_parse/parse_top) + "
              "extracted-model/implementation correspondence + metamorphic oracle on the implementation")
 LEVEL_TEXT = ("Machine-checked theorems (Coq 8.16, closed under the global context) about the parser model, for all "
               "commands and strings: aliases (visible or hidden) are keys resolving to the same argument as the canonical "
               "name; prefix inference for long flags, subcommands and long-flag subcommands returns an exact match or the "
               "only candidate, and returns nothing when two distinct candidates extend the prefix; step-level equalities "
               "for `--l=v` vs `--l v`, `-ov` vs `-o=v` vs `-o v`, and a short cluster vs separate flags, for every parser "
-              "state.  The model is tied to clap by running the extracted model and the real crate on the same generated "
+              "state.  Whole-line theorems (one occurrence rewritten, ARBITRARY rest of the line, any loop/parser state of "
+              "the named class): the token loop from a state with one occurrence still pending and from the state in which "
+              "it has been reacted gives the same result up to flushing (C08_flush_bisim: every iteration keeps the relation "
+              "or resolves it; `--` only stamps a trailing index that the flush ignores), hence `--opt v` = `--opt=v`, "
+              "`-o v` = `-ov` = `-o=v`, `-a<rest>` = `-a -<rest>` and `-abc` = `-a -b -c` (any number of ASCII flags), long "
+              "alias / unique inferred prefix = canonical name, short alias = short name; each also as an equality of "
+              "parse_top results for an occurrence at the head of the line (the pending value may cross a subcommand "
+              "dispatch: react commutes with recording the subcommand), and `--opt v` = `--opt=v` behind any prefix of "
+              "separate flags for successful lines.  The model is tied to clap by running the extracted model and the real crate on the same generated "
               "pairs of spellings on every check; an independent metamorphic oracle (both spellings parsed by the real crate "
               "must give identical matches; ambiguous prefixes must fail) is applied to the implementation's output.")
-LEVEL_NOTE = ("Whole-line equality of two spellings is differential (metamorphic stream), not a theorem; step theorems "
-              "cover the conventional class (at most one value, no require_equals, value not starting with '-').")
+LEVEL_NOTE = ("Whole-line theorems cover ONE rewritten occurrence at the head of its line (arbitrary parser state at loop "
+              "level), class: single-valued option, no require_equals, value not flag-looking, occurrence accepted, "
+              "subcommand_precedence_over_arg and ignore_errors off, short forms at ValuesDone without short "
+              "flag-subcommands.  Compositions of rewrites, occurrences behind arbitrary prefixes or inside subcommands, "
+              "subcommand alias/prefix at loop level and `--` insertion stay differential (metamorphic stream).")
